@@ -1,7 +1,10 @@
 //! Implementation-side executors of the protocol ops, grouped by source file of the library, plus
 //! the direct (non-protocol) explorations some properties need.
 
+pub mod net;
+pub mod props;
 pub mod random;
+pub mod reference;
 pub mod scalar;
 pub mod tensor;
 
